@@ -6,6 +6,7 @@ import re
 import vlib
 import c15gen as G
 import c16gen as P
+import c16hist as H
 import c16trans as T
 
 PROPS = "Props/C16.v"
@@ -127,6 +128,14 @@ def corr(ctx, kind, inp, mo, io):
         ctx.corr(kind, inp, mo if mo[0] != "ok" else ("ok", short(mo[1])), io if io[0] != "ok" else ("ok", short(io[1])))
 
 
+def corr_reuse(ctx, kind, inp, mo, io2, unchanged):
+    """history part of the tie: the model is a pure function, so the SECOND call on the same argument objects must
+    give what the model gives, and the call must leave its arguments as they were"""
+    corr(ctx, kind + ":2nd-call-same-objects", inp, mo, io2)
+    if not unchanged:
+        ctx.corr(kind + ":arguments", inp, "arguments unchanged by the call", "arguments mutated by the call")
+
+
 # ---------------------------------------------------------------- independent helpers of the search
 
 def canon_rooms(rooms):
@@ -224,7 +233,8 @@ def get_tr(ctx):
 def cases_grid(ctx, module):
     out = getattr(ctx, "_c16_cases", {}).get(module)
     if out is None:
-        out = list(P.grid_problems(ctx.rng, module, ctx.thorough))
+        out = list(P.grid_problems(ctx.rng, module, ctx.thorough)) + list(P.grid_problems_hard(ctx.rng, module, ctx.thorough))
+        out = [H.fresh(t) for t in out]
         ctx.__dict__.setdefault("_c16_cases", {})[module] = out
     return out
 
@@ -233,9 +243,9 @@ def cases_rooms(ctx, tag):
     store = ctx.__dict__.setdefault("_c16_cases", {})
     if tag not in store:
         out = []
-        for (h, w, rooms) in P.room_partitions(ctx.rng, ctx.thorough):
+        for (h, w, rooms) in list(P.room_partitions(ctx.rng, ctx.thorough)) + list(P.big_side_partitions(ctx.rng, ctx.thorough)):
             out.append((h, w, G.shuffled_rooms(ctx.rng, rooms) if ctx.rng.random() < 0.7 else [list(r) for r in rooms]))
-        store[tag] = out
+        store[tag] = [H.fresh(t) for t in out]
     return store[tag]
 
 
@@ -243,19 +253,21 @@ def cases_compass(ctx):
     store = ctx.__dict__.setdefault("_c16_cases", {})
     if "compass" not in store:
         out = []
-        for (h, w, pos) in P.compass_problems(ctx.rng, ctx.thorough):
+        for (h, w, pos) in list(P.compass_problems(ctx.rng, ctx.thorough)) + list(P.compass_run_problems(ctx.rng, ctx.thorough)) \
+                + list(P.compass_oob_problems(ctx.rng)):
             if ctx.rng.random() < 0.3:
                 pos = list(pos)
                 ctx.rng.shuffle(pos)
             out.append((h, w, pos))
-        store["compass"] = out
+        store["compass"] = [H.fresh(t) for t in out]
     return store["compass"]
 
 
 def cases_aquarium(ctx):
     store = ctx.__dict__.setdefault("_c16_cases", {})
     if "aquarium" not in store:
-        store["aquarium"] = list(P.aquarium_problems(ctx.rng, ctx.thorough))
+        store["aquarium"] = [H.fresh(t) for t in list(P.aquarium_problems(ctx.rng, ctx.thorough))
+                             + list(P.aquarium_run_problems(ctx.rng, ctx.thorough)) + list(P.aquarium_oob_problems(ctx.rng))]
     return store["aquarium"]
 
 
@@ -265,8 +277,44 @@ def cases_heyawake(ctx):
         out = []
         for (h, w, rooms) in cases_rooms(ctx, "heyawake-rooms"):
             out.append((h, w, rooms, P.heyawake_clues(ctx.rng, rooms)))
-        store["heyawake"] = out
+        for (h, w, rooms, clues) in list(P.heyawake_run_cases(ctx.rng, ctx.thorough)) + list(P.heyawake_oob_cases(ctx.rng)):
+            if ctx.rng.random() < 0.6:                     # the caller may list the rooms in any order
+                order = list(range(len(rooms)))
+                ctx.rng.shuffle(order)
+                rooms, clues = [rooms[i] for i in order], [clues[i] for i in order]
+            out.append((h, w, rooms, clues))
+        store["heyawake"] = [H.fresh(t) for t in out]
     return store["heyawake"]
+
+
+def cases_rect(ctx):
+    """heyawake problems in the rectangular representation: (h, w, [(y0, x0, y1, x1, clue)])"""
+    store = ctx.__dict__.setdefault("_c16_cases", {})
+    if "rect" not in store:
+        rng, out = ctx.rng, []
+        for _ in range(150 if ctx.thorough else 40):
+            h, w = rng.choice([(rng.randint(1, 8), rng.randint(1, 8)), (rng.randint(1, 8), rng.randint(1, 8)), (1, 40), (37, 2), (6, 7)])
+            rect = [(y0, x0, y1, x1, rng.choice([-1, -1, 0, 1, 2, 5, 15, 16, 255, 256, 4095]))
+                    for (y0, x0, y1, x1) in P.rect_partition(rng, 0, 0, h, w)]
+            rng.shuffle(rect)
+            out.append((h, w, rect))
+        store["rect"] = [H.fresh(t) for t in out]
+    return store["rect"]
+
+
+def cases_arrays(ctx):
+    store = ctx.__dict__.setdefault("_c16_cases", {})
+    if "arrays" not in store:
+        store["arrays"] = [H.fresh(t) for t in P.legacy_arrays(ctx.rng, ctx.thorough)]
+    return store["arrays"]
+
+
+def call2(fn, *args):
+    """fn(*args) twice on the SAME argument objects -> (first outcome, second outcome, arguments unchanged?)"""
+    before = H.snapshot(args)
+    io1 = vlib.guarded(lambda: fn(*args))
+    io2 = vlib.guarded(lambda: fn(*args))
+    return io1, io2, H.same(before, args)
 
 
 def malformed_grid(rng, module, g):
@@ -305,10 +353,16 @@ def correspond(ctx):
         ser_fn = getattr(pm, d["ser_fn"])
         reqs, impls, inps = [], [], []
 
-        def add(req, io, inp):
+        def add(req, io, inp, io2=None, unchanged=True):
             reqs.append(req)
-            impls.append(io)
+            impls.append((io, io2, unchanged))
             inps.append(inp)
+
+        def add2(req, inp, *args):
+            """two calls on one private copy of the arguments (the shared case objects stay as generated)"""
+            io, io2, unch = call2(ser_fn, *H.fresh(args))
+            add(req, io, inp, io2, unch)
+            return io
 
         if d["ser"]["size"] == "problem":
             stream = [(h, w, g, "valid") for (h, w, g) in cases_grid(ctx, module)]
@@ -317,14 +371,12 @@ def correspond(ctx):
             for (h, w, g, tag) in stream:
                 if not pv_ok(g):
                     continue
-                io = vlib.guarded(lambda: ser_fn(g))
-                add("SERP %d %s %s %s" % (cu, tt, nm, G.pv_tok(g)), io, (module, tag, short(g, 200)))
+                io = add2("SERP %d %s %s %s" % (cu, tt, nm, G.pv_tok(g)), (module, tag, short(g, 200)), g)
                 if tag == "valid" and io[0] == "ok":
                     produced.setdefault(module, []).append((h, w, g, io[1]))
         elif d["ser"]["size"] == "args":
             for (h, w, rooms) in cases_rooms(ctx, module):
-                io = vlib.guarded(lambda: ser_fn(h, w, rooms))
-                add("SERS %d %s %s %d %d %s" % (cu, tt, nm, h, w, G.pv_tok(rooms)), io, (module, "valid", h, w, short(rooms, 200)))
+                io = add2("SERS %d %s %s %d %d %s" % (cu, tt, nm, h, w, G.pv_tok(rooms)), (module, "valid", h, w, short(rooms, 200)), h, w, rooms)
                 if io[0] == "ok":
                     produced.setdefault(module, []).append((h, w, rooms, io[1]))
                 if rng.random() < 0.25:
@@ -336,11 +388,14 @@ def correspond(ctx):
                         (module, "malformed", bad[0], bad[1], short(bad[2], 200)))
         else:                                              # heyawake: (rooms, clues) or the rectangular representation
             for (h, w, rooms, clues) in cases_heyawake(ctx):
-                io = vlib.guarded(lambda: ser_fn(h, w, rooms, clues))
-                add("SERS %d %s %s %d %d %s" % (cu, tt, nm, h, w, G.pv_tok((rooms, clues))), io,
-                    (module, "valid", h, w, short((rooms, clues), 200)))
+                io = add2("SERS %d %s %s %d %d %s" % (cu, tt, nm, h, w, G.pv_tok((rooms, clues))),
+                          (module, "valid", h, w, short((rooms, clues), 200)), h, w, rooms, clues)
                 if io[0] == "ok":
                     produced.setdefault(module, []).append((h, w, (rooms, clues), io[1]))
+                # the same problem handed over as tuples / one-shot iterables / in another room order: the model sees the lists
+                fname, ff = rng.choice(H.forms_pairs(*H.fresh((rooms, clues))))
+                add("SERS %d %s %s %d %d %s" % (cu, tt, nm, h, w, G.pv_tok((rooms, clues))), vlib.guarded(lambda: ser_fn(h, w, *ff())),
+                    (module, "form:" + fname, h, w, short((rooms, clues), 200)))
                 if rng.random() < 0.2:
                     bad = rng.choice([(w, h, rooms, clues), (h, w, rooms, clues[:-1]), (h, w, rooms, clues + [1]),
                                       (h, w, rooms[:-1], clues[:-1]), (h, w, rooms, [4096 for _ in clues]),
@@ -358,11 +413,19 @@ def correspond(ctx):
                 io = vlib.guarded(lambda: tuple(pm.convert_from_rectangular_repr(rect)))
                 corr(ctx, "convert_from_rectangular_repr", (h, w, short(rect, 200)), mo, io)
                 if mo[0] == "ok":
-                    io = vlib.guarded(lambda: ser_fn(h, w, rect))
-                    add("SERS %d %s %s %d %d %s" % (cu, tt, nm, h, w, G.pv_tok(mo[1])), io, (module, "rect", h, w, short(rect, 200)))
+                    add2("SERS %d %s %s %d %d %s" % (cu, tt, nm, h, w, G.pv_tok(mo[1])), (module, "rect", h, w, short(rect, 200)), h, w, rect)
+                    fname, ff = rng.choice(H.forms_rect(H.fresh(rect)))
+                    add("SERS %d %s %s %d %d %s" % (cu, tt, nm, h, w, G.pv_tok(mo[1])), vlib.guarded(lambda: ser_fn(h, w, ff())),
+                        (module, "rect-form:" + fname, h, w, short(rect, 200)))
+                    if fname != "reversed":                # (that form lists the rectangles in another order: same URL, other lists)
+                        io = vlib.guarded(lambda: tuple(pm.convert_from_rectangular_repr(ff())))
+                        corr(ctx, "convert_from_rectangular_repr", (h, w, "form:" + fname, short(rect, 200)), mo, io)
         outs = m.batch(reqs)
-        for o, io, inp in zip(outs, impls, inps):
-            corr(ctx, "serialize_" + module, inp, parse_model(o, "str"), io)
+        for o, (io, io2, unch), inp in zip(outs, impls, inps):
+            mo = parse_model(o, "str")
+            corr(ctx, "serialize_" + module, inp, mo, io)
+            if io2 is not None:
+                corr_reuse(ctx, "serialize_" + module, inp, mo, io2, unch)
             n_mal += inp[1] == "malformed"
 
     # ---- 2. combinator-based modules: deserialize_<p> on produced URLs and their variants
@@ -388,31 +451,71 @@ def correspond(ctx):
                 continue
             seen.add(u)
             reqs.append("DES %d %s %s %s %s" % (cu, tt, G.hx(u), al_tok, flags))
-            impls.append(vlib.guarded(lambda: de_fn(u)))
+            io = vlib.guarded(lambda: de_fn(u))
+            first = H.snapshot(io)
+            if io[0] == "ok":
+                H.scramble(io[1])                          # the caller edits the decoded problem, then decodes the URL again
+            impls.append((first, vlib.guarded(lambda: de_fn(u))))
             inps.append((module, tag, short(u, 200)))
+        # every combination of the optional arguments of deserialize_problem_as_url (given / omitted / positional)
+        import cspuz.problem_serializer as ps_
+        comb = getattr(mod(module), d["comb_name"])
+        name = d["ser"]["name"]
+        pool = [u for (u, tag) in urls if latin1(u)]
+        for _ in range((60 if ctx.thorough else 16) if pool else 0):
+            u = rng.choice(pool)
+            alv = rng.choice(["omit", None, name, [name], [others[0], name], others[0], [], [others[0]], [name, name]])
+            af, rs = rng.choice(["omit", False, True]), rng.choice(["omit", False, True])
+            kw = {}
+            if alv != "omit":
+                kw["allowed_puzzles"] = H.fresh(alv)
+            if af != "omit":
+                kw["allow_failure"] = af
+            if rs != "omit":
+                kw["return_size"] = rs
+            if len(kw) == 3 and rng.random() < 0.5:
+                f = lambda: ps_.deserialize_problem_as_url(comb, u, kw["allowed_puzzles"], kw["allow_failure"], kw["return_size"])  # noqa
+            else:
+                f = lambda: ps_.deserialize_problem_as_url(comb, u, **kw)  # noqa
+            a = None if alv == "omit" else alv
+            a_tok = "A" if a is None else ("O " + G.hx(a) if isinstance(a, str) else ("L %d %s" % (len(a), " ".join(G.hx(x) for x in a))).strip())
+            reqs.append("DES %d %s %s %s %d %d" % (cu, tt, G.hx(u), a_tok, int(af is True), int(rs is True)))
+            io = vlib.guarded(f)
+            impls.append((io, None))
+            inps.append((module, "options", short(u, 120), repr(alv), repr(af), repr(rs)))
         outs = m.batch(reqs)
-        for o, io, inp in zip(outs, impls, inps):
-            corr(ctx, "deserialize_" + module, inp, parse_model(o, "pv"), io)
+        for o, (io, io2), inp in zip(outs, impls, inps):
+            mo = parse_model(o, "pv")
+            corr(ctx, "deserialize_" + module, inp, mo, io)
+            if io2 is not None:
+                corr(ctx, "deserialize_" + module + ":2nd-call-after-editing-1st-result", inp, mo, io2)
             n_mal += inp[1] == "variant"
 
     # ---- 3. compass
     cm = mod("compass")
     reqs, impls, inps, curls = [], [], [], []
     for (h, w, pos) in cases_compass(ctx):
-        io = vlib.guarded(lambda: cm.to_puzz_link_url(h, w, pos))
+        io, io2, unch = call2(cm.to_puzz_link_url, *H.fresh((h, w, pos)))
         reqs.append("CTO %d %d %s" % (h, w, G.pv_tok(pos)))
-        impls.append(io)
+        impls.append((io, io2, unch))
         inps.append(("valid", h, w, short(pos, 200)))
         if io[0] == "ok":
             curls.append((h, w, io[1]))
+        fname, ff = rng.choice(H.forms_compass(H.fresh(pos)))  # tuples / one-shot iterables: the model sees the list
+        reqs.append("CTO %d %d %s" % (h, w, G.pv_tok(pos)))
+        impls.append((vlib.guarded(lambda: cm.to_puzz_link_url(h, w, ff())), None, True))
+        inps.append(("form:" + fname, h, w, short(pos, 200)))
         if rng.random() < 0.15 and pos:
             bad = rng.choice([(w, h, pos), (h, w, pos + [pos[0]]), (h, w, [(h, 0, 1, 1, 1, 1)]), (h, w, [(0, -1, 1, 2, 3, 4)]),
                               (h, w, [(-1, 0, 4096, 2, 3, 4)]), (0, 0, pos[:1]), (h, w, [(0, 0, -2, 0, 16, 5000)])])
             reqs.append("CTO %d %d %s" % (bad[0], bad[1], G.pv_tok(bad[2])))
-            impls.append(vlib.guarded(lambda: cm.to_puzz_link_url(*bad)))
+            impls.append((vlib.guarded(lambda: cm.to_puzz_link_url(*bad)), None, True))
             inps.append(("malformed", bad[0], bad[1], short(bad[2], 200)))
-    for o, io, inp in zip(m.batch(reqs), impls, inps):
-        corr(ctx, "compass.to_puzz_link_url", inp, parse_model(o, "str"), io)
+    for o, (io, io2, unch), inp in zip(m.batch(reqs), impls, inps):
+        mo = parse_model(o, "str")
+        corr(ctx, "compass.to_puzz_link_url", inp, mo, io)
+        if io2 is not None:
+            corr_reuse(ctx, "compass.to_puzz_link_url", inp, mo, io2, unch)
         n_mal += inp[0] == "malformed"
     purls = []
     for i, (h, w, u) in enumerate(curls):
@@ -426,23 +529,47 @@ def correspond(ctx):
     purls = [u for u in dict.fromkeys(purls) if latin1(u)]
     for u, o in zip(purls, m.batch(["CPARSE " + G.hx(u) for u in purls])):
         io = vlib.guarded(lambda: cm.parse_puzz_link_url(u))
-        corr(ctx, "compass.parse_puzz_link_url", short(u, 200), parse_model(o, "pv"), io)
+        first = H.snapshot(io)
+        if io[0] == "ok":
+            H.scramble(io[1])
+        mo = parse_model(o, "pv")
+        corr(ctx, "compass.parse_puzz_link_url", short(u, 200), mo, first)
+        corr(ctx, "compass.parse_puzz_link_url:2nd-call-after-editing-1st-result", short(u, 200), mo, vlib.guarded(lambda: cm.parse_puzz_link_url(u)))
 
     # ---- 4. star battle, aquarium, util helpers
     sb, aq, ut = mod("star_battle"), mod("aquarium"), importlib.import_module("cspuz.puzzle.util")
     reqs, impls, inps, kinds = [], [], [], []
+
+    def hist(req, kind, rk, inp, fn, *args):
+        """two calls on one private copy of the arguments; the second result and the argument check follow the first in the lists"""
+        io, io2, unch = call2(fn, *H.fresh(args))
+        for (k2, o2) in [(kind, io), (kind + ":2nd-call-same-objects", io2)]:
+            reqs.append(req)
+            impls.append(o2)
+            inps.append(inp)
+            kinds.append((k2, rk))
+        if not unch:
+            ctx.corr(kind + ":arguments", inp, "arguments unchanged by the call", "arguments mutated by the call")
+
+    def one(req, kind, rk, inp, io):
+        reqs.append(req)
+        impls.append(io)
+        inps.append(inp)
+        kinds.append((kind, rk))
+
     for (h, w, rooms) in cases_rooms(ctx, "star"):
         ids = P.block_id_of(h, w, rooms)
+        fname, ff = rng.choice(H.forms_ids(ids))
         if h == w:
-            k = rng.choice([1, 1, 2, 3, 10])
-            reqs.append("STAR %d %d %s" % (h, k, G.pv_tok(ids)))
-            impls.append(vlib.guarded(lambda: sb.problem_to_pzv_url(h, k, ids)))
-            inps.append((h, k, short(ids, 200)))
-            kinds.append(("star_battle.problem_to_pzv_url", "str"))
-        reqs.append("SEG %d %d %s" % (h, w, G.pv_tok(ids)))
-        impls.append(vlib.guarded(lambda: ut.encode_grid_segmentation(h, w, ids)))
-        inps.append((h, w, short(ids, 200)))
-        kinds.append(("util.encode_grid_segmentation", "str"))
+            k = rng.choice([1, 1, 2, 3, 10, 300])
+            hist("STAR %d %d %s" % (h, k, G.pv_tok(ids)), "star_battle.problem_to_pzv_url", "str", (h, k, short(ids, 200)),
+                 sb.problem_to_pzv_url, h, k, ids)
+            one("STAR %d %d %s" % (h, k, G.pv_tok(ids)), "star_battle.problem_to_pzv_url", "str", (h, k, "form:" + fname, short(ids, 200)),
+                vlib.guarded(lambda: sb.problem_to_pzv_url(h, k, ff())))
+        hist("SEG %d %d %s" % (h, w, G.pv_tok(ids)), "util.encode_grid_segmentation", "str", (h, w, short(ids, 200)),
+             ut.encode_grid_segmentation, h, w, ids)
+        one("SEG %d %d %s" % (h, w, G.pv_tok(ids)), "util.encode_grid_segmentation", "str", (h, w, "form:" + fname, short(ids, 200)),
+            vlib.guarded(lambda: ut.encode_grid_segmentation(h, w, ff())))
         if rng.random() < 0.2:                             # size arguments that do not fit the grid
             hh, ww = rng.choice([(w, h), (h + 1, w), (h, w + 1), (h - 1, w), (0, w), (h, 0)])
             reqs.append("SEG %d %d %s" % (hh, ww, G.pv_tok(ids)))
@@ -451,10 +578,10 @@ def correspond(ctx):
             kinds.append(("util.encode_grid_segmentation", "str"))
             n_mal += 1
         blocks = G.shuffled_rooms(rng, rooms)
-        reqs.append("B2B %d %d %s" % (h, w, G.pv_tok(blocks)))
-        impls.append(vlib.guarded(lambda: ut.blocks_to_block_id(h, w, blocks)))
-        inps.append((h, w, short(blocks, 200)))
-        kinds.append(("util.blocks_to_block_id", "pv"))
+        hist("B2B %d %d %s" % (h, w, G.pv_tok(blocks)), "util.blocks_to_block_id", "pv", (h, w, short(blocks, 200)),
+             ut.blocks_to_block_id, h, w, blocks)
+        one("B2B %d %d %s" % (h, w, G.pv_tok(blocks)), "util.blocks_to_block_id", "pv", (h, w, "form:generators", short(blocks, 200)),
+            vlib.guarded(lambda: ut.blocks_to_block_id(h, w, (H.gen(b) for b in blocks))))
         if rng.random() < 0.2:
             bb = rng.choice([[[(y - h, x - w) for (y, x) in r] for r in blocks], [[(y + 1, x) for (y, x) in r] for r in blocks],
                              blocks[:-1], blocks + [[(0, 0)]], [[(y, x + 1) for (y, x) in r] for r in blocks]])
@@ -464,10 +591,11 @@ def correspond(ctx):
             kinds.append(("util.blocks_to_block_id", "pv"))
             n_mal += 1
     for (h, w, blocks, rows, cols) in cases_aquarium(ctx):
-        reqs.append("AQ %d %d %s %s %s" % (h, w, G.pv_tok(blocks), G.pv_tok(rows), G.pv_tok(cols)))
-        impls.append(vlib.guarded(lambda: aq.problem_to_url(h, w, blocks, rows, cols)))
-        inps.append((h, w, short((blocks, rows, cols), 200)))
-        kinds.append(("aquarium.problem_to_url", "str"))
+        hist("AQ %d %d %s %s %s" % (h, w, G.pv_tok(blocks), G.pv_tok(rows), G.pv_tok(cols)), "aquarium.problem_to_url", "str",
+             (h, w, short((blocks, rows, cols), 200)), aq.problem_to_url, h, w, blocks, rows, cols)
+        fname, ff = rng.choice(H.forms_aquarium(*H.fresh((blocks, rows, cols))))
+        one("AQ %d %d %s %s %s" % (h, w, G.pv_tok(blocks), G.pv_tok(rows), G.pv_tok(cols)), "aquarium.problem_to_url", "str",
+            (h, w, "form:" + fname, short((blocks, rows, cols), 200)), vlib.guarded(lambda: aq.problem_to_url(h, w, *ff())))
         if rng.random() < 0.15:
             bad = rng.choice([(w, h, blocks, rows, cols), (h, w, blocks, [4096] + rows[1:], cols), (h, w, blocks[:-1], rows, cols),
                               (h, w, blocks, [-2] + rows[1:], cols), (h, w, blocks, rows + [3], cols)])
@@ -492,10 +620,30 @@ def correspond(ctx):
                 arr.append(7)
         else:
             arr = flat
-        reqs.append("EA %s %s %s %s" % ("-" if dim is None else str(dim), G.hx(marker), G.pv_tok(empty), G.pv_tok(arr)))
-        impls.append(vlib.guarded(lambda: ut.encode_array(arr, single_empty_marker=marker, empty=empty, dim=dim)))
-        inps.append((short(arr, 200), marker, repr(empty), dim))
-        kinds.append(("util.encode_array", "str"))
+        req = "EA %s %s %s %s" % ("-" if dim is None else str(dim), G.hx(marker), G.pv_tok(empty), G.pv_tok(arr))
+        inp = (short(arr, 200), marker, repr(empty), dim)
+        arr, empty, marker = H.fresh((arr, empty, marker))     # the empty value is EQUAL to the empty cells, not the same object
+        hist(req, "util.encode_array", "str", inp, lambda a, mk, e, dm: ut.encode_array(a, single_empty_marker=mk, empty=e, dim=dm),
+             arr, marker, empty, dim)
+        style = rng.choice(["positional", "defaults-omitted", "one-shot", "tuple"])
+        if style == "positional":
+            one(req, "util.encode_array", "str", inp + (style,), vlib.guarded(lambda: ut.encode_array(arr, marker, empty, dim)))
+        elif style == "defaults-omitted":                      # an argument equal to its documented default is left out
+            kw = {}
+            if marker != "g":
+                kw["single_empty_marker"] = marker
+            if empty is not None:
+                kw["empty"] = empty
+            if dim is not None:
+                kw["dim"] = dim
+            one(req, "util.encode_array", "str", inp + (style,), vlib.guarded(lambda: ut.encode_array(arr, **kw)))
+        elif style == "one-shot" and dim in (1, 2):            # with dim given the array is iterated once
+            one_shot = rng.choice([lambda: iter(arr), lambda: H.gen(arr), lambda: map(lambda v: v, arr)])
+            one(req, "util.encode_array", "str", inp + (style,),
+                vlib.guarded(lambda: ut.encode_array(one_shot(), single_empty_marker=marker, empty=empty, dim=dim)))
+        elif style == "tuple":
+            one(req, "util.encode_array", "str", inp + (style,),
+                vlib.guarded(lambda: ut.encode_array(tuple(arr), single_empty_marker=marker, empty=empty, dim=dim)))
     for v in pool + list(range(-3, 20)) + [254, 257, 4094, 5000, 10 ** 12]:
         if isinstance(v, list) and v and isinstance(v[0], list):
             continue
@@ -549,17 +697,21 @@ def correspond(ctx):
 def categories(values):
     c = []
     vs = [v for v in values if isinstance(v, int)]
-    if any(v >= 256 for v in vs):
+    if any(v >= 4096 for v in vs):
+        c.append("value>=4096")
+    elif any(v >= 256 for v in vs):
         c.append("value>=256")
     elif any(v >= 16 for v in vs):
         c.append("value>=16")
     return c
 
 
+def size_category(h, w):
+    return (["non-square"] if h != w else []) + (["side>=36"] if max(h, w) >= 36 else [])
+
+
 def grid_category(module, h, w, g):
-    c = []
-    if h != w:
-        c.append("non-square")
+    c = size_category(h, w)
     flat = [v for r in g for v in r]
     if module == "yajilin":
         if "??" in flat:
@@ -576,23 +728,80 @@ def pz(m, line, kind="pv"):
     return parse_model(m.call(line), kind)
 
 
+def encode_history(viol, module, cat, det, what, fn, *args):
+    """fn(*args) twice on the SAME argument objects.  Returns (first outcome, copy of the arguments taken BEFORE the first call).
+    Violations: the call changes the objects it is given; the second call gives another result than the first."""
+    before = H.snapshot(args)
+    r1 = vlib.guarded(lambda: fn(*args))
+    if not H.same(before, args):
+        viol(module, "args-mutated:" + what, cat,
+             "%s changes the problem objects it is given: after the call they describe another problem" % what,
+             dict(det, arguments_before=short(before), arguments_after=short(args), first_result=short(r1)))
+    r2 = vlib.guarded(lambda: fn(*args))
+    if r2 != r1:
+        viol(module, "reuse:" + what, cat, "%s called a second time on the same objects gives another result" % what,
+             dict(det, first=short(r1), second=short(r2)))
+    return r1, before
+
+
+def decode_history(viol, module, cat, det, what, fn, url, first):
+    """first = ("ok", value) as just returned by fn(url).  The value must not contain one list object twice, and after the caller
+    has edited it in place, decoding the same URL again must give the original value again (no cache is aliased)."""
+    if first[0] != "ok" or first[1] is None:
+        return
+    keep = H.snapshot(first[1])
+    if H.aliased(first[1]):
+        viol(module, "decode-alias:" + what, cat, "%s returns a problem in which one list object occurs twice (editing a cell edits another)" % what,
+             dict(det, decoded=short(keep)))
+    H.scramble(first[1])
+    again = vlib.guarded(lambda: fn(url))
+    if not (again[0] == "ok" and H.same(again[1], keep)):
+        viol(module, "decode-reuse:" + what, cat, "%s gives another result for the same URL after the first result was edited in place" % what,
+             dict(det, first=short(keep), second=short(again)))
+
+
+def check_forms(ctx, viol, module, cat, det, what, forms, call, expect):
+    """the same problem in other container forms (tuples, generators, iterators, other listing order) must give the same text"""
+    for (fname, make) in forms:
+        ctx.prop_case("form:" + module, (fname, det.get("url", ""), det.get("h"), det.get("w")))
+        r = vlib.guarded(lambda: call(make()))
+        if r != ("ok", expect):
+            viol(module, "form:" + fname, cat, "%s gives another result when the same problem is passed as %s" % (what, fname),
+                 dict(det, form=fname, list_form_result=expect, observed=short(r)))
+
+
+def legacy_cells(module, g):
+    if module == "nurikabe":
+        return [[None if v == 0 else ("." if v == -1 else v) for v in r] for r in g], None
+    if module == "sudoku":
+        return g, 0                                          # the very same object goes to both encoder families
+    return [["." if v == 0 else v for v in r] for r in g], -1
+
+
 def search_grid(ctx, m, viol, module):
     pm = mod(module)
     ser_fn, de_fn = getattr(pm, "serialize_" + module), getattr(pm, "deserialize_" + module)
     ut = importlib.import_module("cspuz.puzzle.util")
     for (h, w, g) in cases_grid(ctx, module):
-        cat = grid_category(module, h, w, g)
+        fmt_ok = P.in_format(module, g)
+        cat = grid_category(module, h, w, g) + ("" if fmt_ok else "+out-of-format")
         det = {"h": h, "w": w, "problem": repr(g)}
         ctx.prop_case("roundtrip:" + module, (h, w, repr(g)))
-        r = vlib.guarded(lambda: ser_fn(g))
+        r, (g0,) = encode_history(viol, module, cat, det, "serialize_" + module, ser_fn, g)
         if r[0] != "ok":
-            viol(module, "encode", cat, "serialize_%s raises on a problem of the module's format" % module, dict(det, observed=repr(r)))
+            if fmt_ok:
+                viol(module, "encode", cat, "serialize_%s raises on a problem of the module's format" % module, dict(det, observed=repr(r)))
+            else:
+                ctx.count("search:encoder-rejects-out-of-format-problem")
             continue
+        # (a URL produced for an out-of-format problem must still satisfy everything below)
         url = r[1]
         det["url"] = url
         d = vlib.guarded(lambda: de_fn(url))
-        if not (d[0] == "ok" and strict_eq(d[1], g)):
-            viol(module, "roundtrip", cat, "deserialize(serialize(problem)) != problem", dict(det, observed=short(d), expected=short(g)))
+        if not (d[0] == "ok" and strict_eq(d[1], g0)):
+            viol(module, "roundtrip", cat, "deserialize(serialize(problem)) != problem", dict(det, observed=short(d), expected=short(g0)))
+        else:
+            decode_history(viol, module, cat, det, "deserialize_" + module, de_fn, url, d)
         parts, why = split_url(url, NAMES[module], w, h)
         if parts is None:
             viol(module, "shape", cat, "URL is not <prefix><name>/<width>/<height>/<body>: " + why, det)
@@ -600,22 +809,34 @@ def search_grid(ctx, m, viol, module):
         body = parts[0]
         ctx.prop_case("pzpr:" + module, (h, w, body))
         p = pz(m, "PZ %s %d %d %s" % (module, h, w, G.hx(body)))
-        if p[0] != "no-model" and not (p[0] == "ok" and strict_eq(p[1], g)):
+        if p[0] != "no-model" and not (p[0] == "ok" and strict_eq(p[1], g0)):
             viol(module, "pzpr", cat, "the independent pzpr decoder does not read the body back as the problem",
-                 dict(det, body=body, pzpr_reads=short(p), expected=short(g)))
-        # legacy encoder on the same data
-        if module in ("nurikabe", "sudoku", "nurimisaki"):
+                 dict(det, body=body, pzpr_reads=short(p), expected=short(g0)))
+        check_forms(ctx, viol, module, cat, det, "serialize_" + module, H.forms_grid(g0), ser_fn, url)
+        # legacy encoder on the same data, in both call orders, each encoder twice on the same objects
+        if module in ("nurikabe", "sudoku", "nurimisaki") and fmt_ok:
             ctx.prop_case("legacy-eq:" + module, (h, w, body))
-            if module == "nurikabe":
-                data, empty = [[None if v == 0 else ("." if v == -1 else v) for v in r] for r in g], None
-            elif module == "sudoku":
-                data, empty = g, 0
-            else:
-                data, empty = [["." if v == 0 else v for v in r] for r in g], -1
-            le = vlib.guarded(lambda: ut.encode_array(data, empty=empty))
+            data, empty = legacy_cells(module, g)
+            le, _ = encode_history(viol, module, cat, det, "util.encode_array", lambda a: ut.encode_array(a, empty=empty), data)
             if le != ("ok", body):
                 viol(module, "legacy-eq", cat, "util.encode_array and the combinator codec give different text for the same cells",
                      dict(det, body=body, encode_array=short(le)))
+            r3 = vlib.guarded(lambda: ser_fn(g))
+            if r3 != ("ok", url):
+                viol(module, "encode-after-legacy", cat, "serialize_%s on the same object after util.encode_array gives another result" % module,
+                     dict(det, after_legacy=short(r3)))
+            g2 = H.fresh(g0)                                 # new objects: legacy helper FIRST, then the combinator codec
+            data2, _ = legacy_cells(module, g2)
+            le2 = vlib.guarded(lambda: ut.encode_array(data2, empty=empty, dim=2))
+            r4 = vlib.guarded(lambda: ser_fn(g2))
+            if le2 != ("ok", body) or r4 != ("ok", url) or not H.same(g2, g0):
+                viol(module, "legacy-first", cat, "util.encode_array(dim=2) first, serialize_%s second on the same grid: texts differ or the grid changed" % module,
+                     dict(det, body=body, encode_array=short(le2), serialize_after=short(r4), grid_after=short(g2)))
+
+
+def heyawake_solution(pm, h, w, rooms, clues):
+    r = pm.solve_heyawake(h, w, rooms, clues)
+    return (r[0], [[r[1][y, x].sol for x in range(w)] for y in range(h)] if r[0] else None)
 
 
 def search_rooms(ctx, m, viol, module):
@@ -623,23 +844,47 @@ def search_rooms(ctx, m, viol, module):
     ser_fn, de_fn = getattr(pm, "serialize_" + module), getattr(pm, "deserialize_" + module)
     ut = importlib.import_module("cspuz.puzzle.util")
     sb = mod("star_battle")
-    import cspuz.problem_serializer as ps
     stream = cases_heyawake(ctx) if module == "heyawake" else [(h, w, r, None) for (h, w, r) in cases_rooms(ctx, module)]
+    n_solved = 0
     for (h, w, rooms, clues) in stream:
-        cat = "+".join((["non-square"] if h != w else []) + (["1xN"] if min(h, w) == 1 else []) + categories(clues or [])) or "plain"
+        fmt_ok = clues is None or all(-1 <= c <= 4095 for c in clues)
+        cat = "+".join(size_category(h, w) + (["1xN"] if min(h, w) == 1 else []) + categories(clues or [])
+                       + ([] if fmt_ok else ["out-of-format"])) or "plain"
         det = {"h": h, "w": w, "rooms": repr(rooms), "clues": repr(clues)}
+        # everything expected is computed BEFORE the encoder sees the objects
         order = sorted(range(len(rooms)), key=lambda i: min(rooms[i]))
         crooms = [sorted(rooms[i]) for i in order]
+        ids = P.block_id_of(h, w, rooms)
+        ev, eh = borders_of_ids(h, w, ids)
+        cell_clue = None if clues is None else {c: clues[i] for i, r_ in enumerate(rooms) for c in r_}
+        sol0 = None
+        if module == "heyawake" and fmt_ok and h * w <= 16 and n_solved < (200 if ctx.thorough else 60):
+            n_solved += 1
+            sol0 = vlib.guarded(lambda: heyawake_solution(pm, h, w, *H.snapshot((rooms, clues))))
         ctx.prop_case("roundtrip:" + module, (h, w, repr(rooms), repr(clues)))
         if module == "heyawake":
             cclues = [clues[i] for i in order]
-            r = vlib.guarded(lambda: ser_fn(h, w, rooms, clues))
+            r, before = encode_history(viol, module, cat, det, "serialize_heyawake", ser_fn, h, w, rooms, clues)
             want = (h, w, (crooms, cclues))
         else:
-            r = vlib.guarded(lambda: ser_fn(h, w, rooms))
+            r, _ = encode_history(viol, module, cat, det, "serialize_" + module, ser_fn, h, w, rooms)
             want = (h, w, crooms)
+        # encode, then use the same objects for something else
+        if vlib.guarded(lambda: ut.blocks_to_block_id(h, w, rooms)) != ("ok", ids) or \
+                (clues is not None and {c: clues[i] for i, r_ in enumerate(rooms) for c in r_} != cell_clue):
+            viol(module, "problem-after-encode", cat, "after serialize_%s the caller's objects describe another problem (cell -> room / clue map differs)" % module,
+                 dict(det, rooms_after=short(rooms), clues_after=short(clues)))
+        if sol0 is not None:
+            ctx.prop_case("solve-after-encode:" + module, (h, w, repr(rooms), repr(clues)))
+            sol1 = vlib.guarded(lambda: heyawake_solution(pm, h, w, rooms, clues))
+            if sol1 != sol0:
+                viol(module, "solve-after-encode", cat, "solve_heyawake on the same objects gives another answer after serialize_heyawake than on a copy taken before",
+                     dict(det, before=short(sol0), after=short(sol1)))
         if r[0] != "ok":
-            viol(module, "encode", cat, "serialize_%s raises on a partition into connected rooms" % module, dict(det, observed=repr(r)))
+            if fmt_ok:
+                viol(module, "encode", cat, "serialize_%s raises on a partition into connected rooms" % module, dict(det, observed=repr(r)))
+            else:
+                ctx.count("search:encoder-rejects-out-of-format-problem")
             continue
         url = r[1]
         det["url"] = url
@@ -647,13 +892,13 @@ def search_rooms(ctx, m, viol, module):
         if not (d[0] == "ok" and strict_eq(d[1], want)):
             viol(module, "roundtrip", cat, "deserialize(serialize(problem)) != (height, width, canonical problem)",
                  dict(det, observed=short(d), expected=short(want)))
+        else:
+            decode_history(viol, module, cat, det, "deserialize_" + module, de_fn, url, d)
         parts, why = split_url(url, NAMES[module], w, h)
         if parts is None:
             viol(module, "shape", cat, "URL is not <prefix><name>/<width>/<height>/<body>: " + why, det)
             continue
         body = parts[0]
-        ids = P.block_id_of(h, w, rooms)
-        ev, eh = borders_of_ids(h, w, ids)
         ctx.prop_case("pzpr:" + module, (h, w, body))
         p = pz(m, "PZB %d %d %s" % (h, w, G.hx(body)))
         if p[0] != "no-model":
@@ -670,10 +915,13 @@ def search_rooms(ctx, m, viol, module):
             if not ok:
                 viol(module, "pzpr", cat, "the independent pzpr decoder (decodeBorder / decodeRoomNumber16) does not read the body back as the problem",
                      dict(det, body=body, pzpr_reads=short(p), expected_borders=short((ev, eh))))
-        # legacy encoders on the same data
+        if module == "heyawake":
+            check_forms(ctx, viol, module, cat, det, "serialize_heyawake", H.forms_pairs(before[2], before[3]), lambda rc: ser_fn(h, w, *rc), url)
+        # legacy encoders on the same data (same objects as the combinator codec has just seen)
         ctx.prop_case("legacy-eq:" + module, (h, w, body))
-        le = vlib.guarded(lambda: ut.encode_grid_segmentation(h, w, ut.blocks_to_block_id(h, w, rooms))
-                          + (ut.encode_array(cclues, empty=-1) if module == "heyawake" else ""))
+        le, _ = encode_history(viol, module, cat, det, "legacy encoders",
+                               lambda rs, cl: ut.encode_grid_segmentation(h, w, ut.blocks_to_block_id(h, w, rs))
+                               + (ut.encode_array([cl[i] for i in order], empty=-1) if module == "heyawake" else ""), rooms, clues)
         if le != ("ok", body):
             viol(module, "legacy-eq", cat, "encode_grid_segmentation (+ encode_array) and the combinator codec give different text",
                  dict(det, body=body, legacy=short(le)))
@@ -681,8 +929,8 @@ def search_rooms(ctx, m, viol, module):
             # star battle (legacy encoder, one direction only) on the same partition
             k = 1 + (len(rooms) % 3)
             ctx.prop_case("star_battle", (h, k, repr(ids)))
-            r = vlib.guarded(lambda: sb.problem_to_pzv_url(h, k, ids))
-            sdet = {"n": h, "k": k, "blocks": repr(ids), "observed": short(r)}
+            r, _ = encode_history(viol, "star_battle", cat, det, "problem_to_pzv_url", sb.problem_to_pzv_url, h, k, ids)
+            sdet = {"n": h, "k": k, "blocks": repr(ids), "rooms": repr(rooms), "observed": short(r)}
             if r[0] != "ok":
                 viol("star_battle", "encode", cat, "problem_to_pzv_url raises", sdet)
                 continue
@@ -698,36 +946,73 @@ def search_rooms(ctx, m, viol, module):
             if parts[1] != body:
                 viol("star_battle", "legacy-eq", cat, "encode_grid_segmentation and Rooms() give different text for the same partition",
                      dict(sdet, rooms_text=body))
+            check_forms(ctx, viol, "star_battle", cat, dict(sdet, url=r[1], h=h, w=h), "problem_to_pzv_url", H.forms_ids(ids),
+                        lambda b: sb.problem_to_pzv_url(h, k, b), r[1])
+
+
+def search_rect(ctx, m, viol):
+    """heyawake in the rectangular representation: same URL as the (rooms, clues) form built independently here"""
+    pm = mod("heyawake")
+    for (h, w, rect) in cases_rect(ctx):
+        cat = "+".join(size_category(h, w) + categories([t[4] for t in rect])) or "plain"
+        det = {"h": h, "w": w, "rect": repr(rect)}
+        ctx.prop_case("roundtrip:heyawake-rect", (h, w, repr(rect)))
+        rooms = [[(y, x) for y in range(y0, y1) for x in range(x0, x1)] for (y0, x0, y1, x1, _) in rect]
+        clues = [t[4] for t in rect]
+        order = sorted(range(len(rooms)), key=lambda i: min(rooms[i]))
+        want = (h, w, ([sorted(rooms[i]) for i in order], [clues[i] for i in order]))
+        r, _ = encode_history(viol, "heyawake-rect", cat, det, "serialize_heyawake(rectangles)", pm.serialize_heyawake, h, w, rect)
+        if r[0] != "ok":
+            viol("heyawake-rect", "encode", cat, "serialize_heyawake raises on a partition into rectangles", dict(det, observed=repr(r)))
+            continue
+        det["url"] = r[1]
+        d = vlib.guarded(lambda: pm.deserialize_heyawake(r[1]))
+        if not (d[0] == "ok" and strict_eq(d[1], want)):
+            viol("heyawake-rect", "roundtrip", cat, "deserialize(serialize(rectangles)) != (height, width, canonical rooms and clues)",
+                 dict(det, observed=short(d), expected=short(want)))
+        r2 = vlib.guarded(lambda: pm.serialize_heyawake(h, w, rooms, clues))
+        if r2 != r:
+            viol("heyawake-rect", "repr-eq", cat, "the rectangular and the (rooms, clues) representation of one problem give different URLs",
+                 dict(det, rooms_clues_url=short(r2)))
+        check_forms(ctx, viol, "heyawake-rect", cat, det, "serialize_heyawake(rectangles)", H.forms_rect(rect),
+                    lambda q: pm.serialize_heyawake(h, w, q), r[1])
 
 
 def search_compass(ctx, m, viol):
     cm = mod("compass")
     for (h, w, pos) in cases_compass(ctx):
         vals = [v for c in pos for v in c[2:]]
-        cat = "+".join((["non-square"] if h != w else []) + categories(vals)) or "plain"
+        fmt_ok = all(-1 <= v <= 4095 for v in vals)
+        cat = "+".join(size_category(h, w) + categories(vals) + ([] if fmt_ok else ["out-of-format"])) or "plain"
         det = {"h": h, "w": w, "clues": repr(pos)}
         ctx.prop_case("roundtrip:compass", (h, w, repr(pos)))
-        r = vlib.guarded(lambda: cm.to_puzz_link_url(h, w, pos))
+        r, (_, _, pos0) = encode_history(viol, "compass", cat, det, "to_puzz_link_url", cm.to_puzz_link_url, h, w, pos)
         if r[0] != "ok":
-            viol("compass", "encode", cat, "to_puzz_link_url raises on clues inside the board with values in 0..4095", dict(det, observed=repr(r)))
+            if fmt_ok:
+                viol("compass", "encode", cat, "to_puzz_link_url raises on clues inside the board with values in 0..4095", dict(det, observed=repr(r)))
+            else:
+                ctx.count("search:encoder-rejects-out-of-format-problem")
             continue
         url = r[1]
         det["url"] = url
-        want = (h, w, sorted(pos))
+        want = (h, w, sorted(pos0))
         d = vlib.guarded(lambda: cm.parse_puzz_link_url(url))
         if not (d[0] == "ok" and strict_eq(d[1], want)):
             viol("compass", "roundtrip", cat, "parse_puzz_link_url(to_puzz_link_url(h, w, clues)) != (h, w, clues in row-major order)",
                  dict(det, observed=short(d), expected=short(want)))
+        else:
+            decode_history(viol, "compass", cat, det, "parse_puzz_link_url", cm.parse_puzz_link_url, url, d)
         parts, why = split_url(url, NAMES["compass"], w, h)
         if parts is None:
             viol("compass", "shape", cat, "URL is not <prefix>compass/<width>/<height>/<body>: " + why, det)
             continue
         ctx.prop_case("pzpr:compass", (h, w, parts[0]))
         p = pz(m, "PZC %d %d %s" % (h, w, G.hx(parts[0])))
-        exp = [(y, x, u, dn, l, rr) for (y, x, u, l, dn, rr) in sorted(pos)]
+        exp = [(y, x, u, dn, l, rr) for (y, x, u, l, dn, rr) in sorted(pos0)]
         if p[0] != "no-model" and not (p[0] == "ok" and p[1] is not None and list(p[1]) == exp):
             viol("compass", "pzpr", cat, "the independent pzpr decoder does not read the body back as the clues",
                  dict(det, body=parts[0], pzpr_reads=short(p), expected=short(exp)))
+        check_forms(ctx, viol, "compass", cat, det, "to_puzz_link_url", H.forms_compass(pos0), lambda q: cm.to_puzz_link_url(h, w, q), url)
 
 
 def search_aquarium(ctx, m, viol):
@@ -735,12 +1020,17 @@ def search_aquarium(ctx, m, viol):
     import cspuz.problem_serializer as ps
     seqc = lambda n: ps.Seq(ps.OneOf(ps.Spaces(-1, "g"), ps.HexInt()), n)  # noqa
     for (h, w, blocks, rows, cols) in cases_aquarium(ctx):
-        cat = "+".join((["non-square"] if h != w else []) + categories(rows + cols)) or "plain"
+        fmt_ok = all(-1 <= v <= 4095 for v in rows + cols)
+        cat = "+".join(size_category(h, w) + categories(rows + cols) + ([] if fmt_ok else ["out-of-format"])) or "plain"
         det = {"h": h, "w": w, "blocks": repr(blocks), "rows": repr(rows), "cols": repr(cols)}
         ctx.prop_case("aquarium", (h, w, repr(blocks), repr(rows), repr(cols)))
-        r = vlib.guarded(lambda: aq.problem_to_url(h, w, blocks, rows, cols))
+        ids = P.block_id_of(h, w, blocks)
+        r, (_, _, blocks0, rows0, cols0) = encode_history(viol, "aquarium", cat, det, "problem_to_url", aq.problem_to_url, h, w, blocks, rows, cols)
         if r[0] != "ok":
-            viol("aquarium", "encode", cat, "problem_to_url raises", dict(det, observed=repr(r)))
+            if fmt_ok:
+                viol("aquarium", "encode", cat, "problem_to_url raises", dict(det, observed=repr(r)))
+            else:
+                ctx.count("search:encoder-rejects-out-of-format-problem")
             continue
         det["url"] = r[1]
         parts, why = split_url(r[1], NAMES["aquarium"], w, h)
@@ -748,21 +1038,76 @@ def search_aquarium(ctx, m, viol):
             viol("aquarium", "shape", cat, "URL is not <prefix>aquarium/<width>/<height>/<body>: " + why, det)
             continue
         body = parts[0]
-        ev, eh = borders_of_ids(h, w, P.block_id_of(h, w, blocks))
+        ev, eh = borders_of_ids(h, w, ids)
         p = pz(m, "PZAQ %d %d %s" % (h, w, G.hx(body)))
         if p[0] != "no-model" and not (p[0] == "ok" and p[1] is not None and list(p[1][0]) == ev and list(p[1][1]) == eh
-                                       and list(p[1][2]) == cols + rows):
+                                       and list(p[1][2]) == cols0 + rows0):
             viol("aquarium", "pzpr", cat, "decodeBorder / decodeNumber16ExCell do not read the body back as the problem",
-                 dict(det, body=body, pzpr_reads=short(p), expected=short((ev, eh, cols + rows))))
+                 dict(det, body=body, pzpr_reads=short(p), expected=short((ev, eh, cols0 + rows0))))
+        check_forms(ctx, viol, "aquarium", cat, det, "problem_to_url", H.forms_aquarium(blocks0, rows0, cols0),
+                    lambda q: aq.problem_to_url(h, w, *q), r[1])
         # combinator codecs on the same data
         ctx.prop_case("legacy-eq:aquarium", (h, w, body))
         conn = rooms_from_borders(h, w, ev, eh)
-        if sorted(sorted(b) for b in blocks) == sorted(conn):
+        if sorted(sorted(b) for b in blocks0) == sorted(conn):
             ce = vlib.guarded(lambda: ps.serialize_problem(ps.Rooms(), blocks, height=h, width=w) + "/"
                               + ps.serialize_problem(seqc(h + w), cols + rows, height=h, width=w))
             if ce != ("ok", body):
                 viol("aquarium", "legacy-eq", cat, "legacy encoders and Rooms()/Seq(OneOf(Spaces(-1,'g'),HexInt())) give different text",
                      dict(det, body=body, combinators=short(ce)))
+
+
+def search_arrays(ctx, m, viol):
+    """util.encode_array on 2-D / 1-D arrays of numbers against Grid / Seq(OneOf(Spaces(empty, marker), HexInt())):
+    identical text, whichever family is called first, however often, however the array is handed over"""
+    ut = importlib.import_module("cspuz.puzzle.util")
+    import cspuz.problem_serializer as ps
+    for (rows, empty, marker) in cases_arrays(ctx):
+        h, w = len(rows), len(rows[0])
+        flat0 = [v for r in rows for v in r]
+        run = max([len(x) for x in "".join("e" if v == empty else "c" for v in flat0).split("c")] + [0])
+        cat = "+".join((["2-D"] if h > 1 else ["one-row"]) + (["run>20"] if run > 20 else []) + (["marker-" + marker] if marker != "g" else [])
+                       + (["empty=%r" % (empty,)] if empty != -1 else []))
+        det = {"rows": repr(rows), "empty": repr(empty), "marker": marker}
+        ctx.prop_case("legacy-eq:arrays", (repr(rows), repr(empty), marker))
+        leaf = ps.OneOf(ps.Spaces(empty, marker), ps.HexInt())
+        ce = vlib.guarded(lambda: ps.serialize_problem(ps.Grid(leaf), H.fresh(rows), height=h, width=w))
+        if ce[0] != "ok":
+            viol("encode_array", "combinator", cat, "Grid(OneOf(Spaces, HexInt)) does not serialize an array of numbers 0..4095 and empties", dict(det, observed=short(ce)))
+            continue
+        text = ce[1]
+        det["text"] = text
+        call = lambda a: ut.encode_array(a, single_empty_marker=marker, empty=empty)  # noqa
+        le, (rows0,) = encode_history(viol, "encode_array", cat, det, "util.encode_array", call, rows)
+        if le != ("ok", text):
+            viol("encode_array", "legacy-eq", cat, "util.encode_array and Grid(OneOf(Spaces(empty, marker), HexInt())) give different text for the same array",
+                 dict(det, combinator=text, encode_array=short(le)))
+        ce2 = vlib.guarded(lambda: ps.serialize_problem(ps.Grid(leaf), rows, height=h, width=w))      # combinator AFTER legacy, same object
+        if ce2 != ("ok", text):
+            viol("encode_array", "combinator-after-legacy", cat, "the combinator codec gives another text (or fails) on the array object util.encode_array has processed",
+                 dict(det, combinator_first=text, combinator_after=short(ce2), rows_after=short(rows)))
+        forms = [("dim=2", lambda: ut.encode_array(H.fresh(rows0), marker, empty, 2)),
+                 ("dim=2 twice on one object", lambda: (lambda a: (ut.encode_array(a, marker, empty, 2), ut.encode_array(a, marker, empty, 2))[1])(H.fresh(rows0))),
+                 ("generator of rows, dim=2", lambda: ut.encode_array(H.gen(H.fresh(rows0)), single_empty_marker=marker, empty=empty, dim=2)),
+                 ("tuple of rows", lambda: ut.encode_array(tuple(H.fresh(rows0)), single_empty_marker=marker, empty=empty)),
+                 ("flat list", lambda: ut.encode_array(H.fresh(flat0), single_empty_marker=marker, empty=empty)),
+                 ("flat iterator, dim=1", lambda: ut.encode_array(iter(H.fresh(flat0)), single_empty_marker=marker, empty=empty, dim=1)),
+                 ("flat tuple, dim=1", lambda: ut.encode_array(tuple(H.fresh(flat0)), single_empty_marker=marker, empty=empty, dim=1))]
+        if marker == "g":
+            forms.append(("marker omitted", lambda: ut.encode_array(H.fresh(rows0), empty=empty)))
+        if empty is None:
+            forms.append(("empty omitted", lambda: ut.encode_array(H.fresh(rows0), single_empty_marker=marker)))
+        for (fname, f) in forms:
+            ctx.prop_case("form:encode_array", (fname, repr(rows), repr(empty), marker))
+            r = vlib.guarded(f)
+            if r != ("ok", text):
+                viol("encode_array", "form:" + fname, cat, "util.encode_array gives another text for the same cells passed as: " + fname,
+                     dict(det, form=fname, observed=short(r)))
+        if marker >= "g":                                    # unambiguous with hex digits: the combinator decoder reads the legacy text back
+            d = vlib.guarded(lambda: ps.deserialize_problem(ps.Grid(leaf), text, height=h, width=w))
+            if not (d[0] == "ok" and strict_eq(d[1], rows0)):
+                viol("encode_array", "roundtrip", cat, "Grid(OneOf(Spaces, HexInt)) does not decode the text back to the array",
+                     dict(det, observed=short(d)))
 
 
 def search(ctx):
@@ -778,8 +1123,10 @@ def search(ctx):
         search_grid(ctx, m, viol, module)
     for module in ("lits", "norinori", "heyawake"):
         search_rooms(ctx, m, viol, module)
+    search_rect(ctx, m, viol)
     search_compass(ctx, m, viol)
     search_aquarium(ctx, m, viol)
+    search_arrays(ctx, m, viol)
 
 
 def replay(ctx, rp):
@@ -801,6 +1148,12 @@ def replay(ctx, rp):
         store["compass"] = [(h, w, lit(v["clues"]))]
     elif module == "aquarium":
         store["aquarium"] = [(h, w, lit(v["blocks"]), lit(v["rows"]), lit(v["cols"]))]
+    elif module == "heyawake-rect":
+        store["rect"] = [(h, w, lit(v["rect"]))]
+    elif module == "encode_array":
+        store["arrays"] = [(lit(v["rows"]), lit(v["empty"]), v["marker"])]
+    elif module == "star_battle" and "rooms" in v:
+        store["lits"] = [(h, w, lit(v["rooms"]))]
     else:
         return 0
     try:
@@ -814,6 +1167,12 @@ def replay(ctx, rp):
         search_rooms(ctx, m, viol, module)
     elif module == "compass":
         search_compass(ctx, m, viol)
+    elif module == "heyawake-rect":
+        search_rect(ctx, m, viol)
+    elif module == "encode_array":
+        search_arrays(ctx, m, viol)
+    elif module == "star_battle":
+        search_rooms(ctx, m, viol, "lits")
     else:
         search_aquarium(ctx, m, viol)
     print("violations on replay:", ctx.violations)
